@@ -6,5 +6,15 @@ ENGINES = [
      "kind_free_text": "run-time-checked contracts (icontract sidecar wrappers + ghost view/well_formed) on a bounded enumeration of constructed pre-states with forced measurement outcomes (level B, bounded, never counted as proved)"},
 ]
 NOTES = "See DESIGN.md. Level P = proved by pyvc+z3 from the real AST; level B = bounded run-time contracts, always labelled bounded."
-CHECKS = {}
+MIXED_NOTE = ("Trusted: z3, the pyvc executor (own code, cross-checked against CPython on every run), JAX numerics, NumPy/SciPy oracle. "
+              "Level-B part is a bounded enumeration (structures and operand choices enumerated, amplitudes sampled) and is labelled bounded in the evidence; "
+              "only level-P obligations are counted under obligations/discharged.")
+CHECKS = {
+    "C01": {"category": "other",
+            "text": "Kernel contracts proved for all inputs by pyvc+z3 (einsum binding patterns, definedness of names on all routing paths); "
+                    "the routing shells are checked by run-time contracts (joint state == (O x I) rho (O x I)^dagger against an independent oracle) "
+                    "on a bounded enumeration of entry points x layouts x levels x state classes x operation types. Bounded part never counted as proved.",
+            "note": MIXED_NOTE,
+            "technique": "contract-based: pyvc VC generation from the real AST + z3 for kernels; sidecar run-time contracts on enumerated pre-states (bounded) for shells"},
+}
 NOT_APPLICABLE = {}
